@@ -143,6 +143,22 @@ def isolation(ctx, n):
                         real_close()
                         raise RuntimeError("span of plugin %d cannot close" % i)
                     s.close = close
+                    if (i + len(world.log)) % 2 == 0:
+                        # a span of a broken plugin: reading anything from it fails too (name, text)
+                        failing_close = close
+
+                        class HostileSpan:
+                            def close(self, _c=failing_close):
+                                _c()
+
+                            @property
+                            def name(self):
+                                raise RuntimeError("span has no name")
+
+                            def __str__(self):
+                                raise RuntimeError("span has no text")
+                            __repr__ = __str__
+                        return HostileSpan()
                 return s
             sp.create_span = create
             plugins.append(sp)
